@@ -255,6 +255,10 @@ func (wg *WaitGroup) Add(delta int) {
 	if wg.n < 0 {
 		panic("sync: negative WaitGroup counter")
 	}
+	if len(wg.waiters) > 0 && delta > 0 && wg.n == delta {
+		// like the real one
+		panic("sync: WaitGroup misuse: Add called concurrently with Wait")
+	}
 	if wg.n == 0 {
 		s := S
 		if s == nil || s.poisoned {
@@ -282,9 +286,14 @@ func (wg *WaitGroup) Wait() {
 	}
 	t := s.current()
 	s.yield(t, SiteWG)
-	for wg.n > 0 {
+	if wg.n > 0 {
 		wg.waiters = append(wg.waiters, t)
 		s.blockSim(t, fmt.Sprintf("waitgroup %p n=%d", wg, wg.n))
+		if wg.n != 0 && !s.poisoned {
+			// the real sync.WaitGroup checks its state when a waiter resumes: an Add that
+			// slipped in between the counter reaching zero and this moment is fatal
+			panic("sync: WaitGroup is reused before previous Wait has returned")
+		}
 	}
 	raceAcquire(unsafe.Pointer(wg))
 }
